@@ -9,6 +9,8 @@ import (
 	"bytes"
 	"crypto/sha256"
 	"fmt"
+	"github.com/WICG/webpackage/go/signedexchange"
+	"github.com/WICG/webpackage/go/zz_verif/rmice"
 	"github.com/WICG/webpackage/go/zz_verif/rsxg"
 	"log"
 	"math"
@@ -254,6 +256,71 @@ func shortDesc(d string) string {
 	return d
 }
 
+// integritySchemes: an exchange assembled and signed by the reference with the payload integrity scheme of EITHER draft,
+// consistently (payload MI-encoded with that draft, its digest header among the signed headers, its identifier in the
+// integrity parameter). The scheme is fixed by the version (mi-draft2 for 1b1, digest/mi-sha256-03 for 1b2 / 1b3): the
+// other one must be refused however consistent the exchange is; the matching one is the positive control.
+func integritySchemes(r *mon.Run, id *gen.Identity) {
+	const now = int64(1600000000)
+	for _, ver := range gen.SXGVersions {
+		for _, d := range []rmice.Draft{rmice.Draft02, rmice.Draft03} {
+			g := r.Rand("schemes", 0)
+			plain := []byte("payload protected by " + d.Label())
+			stream, digestHdr := rmice.Encode(d, plain, 16)
+			ident := map[rmice.Draft]string{rmice.Draft02: "mi-draft2", rmice.Draft03: "digest/mi-sha256-03"}[d]
+			ref := &rsxg.Exchange{Version: string(ver), URL: "https://example.com/scheme", Method: "GET", ReqHeaders: map[string]string{}, Status: 200,
+				RespHeaders: map[string]string{"content-type": "text/html", "content-encoding": d.Label(), strings.ToLower(d.HeaderName()): digestHdr}, Payload: stream}
+			certSha := sha256.Sum256(id.Certs[0].Raw)
+			vurl := "https://example.com/validity"
+			sig, err := rsxg.Sign(g, id.Key, rsxg.SignedMessage(ref, certSha[:], vurl, now-10, now+3590))
+			if err != nil {
+				r.HarnessFail("integritySchemes: reference signer: %v", err)
+				return
+			}
+			file, ok := rsxg.File(ref, rsxg.SignatureHeader("label", sig, certSha[:], id.CertURL, vurl, ident, now-10, now+3590))
+			if !ok {
+				r.HarnessFail("integritySchemes: cannot assemble the file")
+				return
+			}
+			matches := ident == rsxg.Integrity(string(ver))
+			var accepted bool
+			var payload []byte
+			var lb bytes.Buffer
+			var rerr error
+			p, pv := r.Call(fmt.Sprintf("scheme/%s/%s", ver, ident), file, func() {
+				e, err := signedexchange.ReadExchange(bytes.NewReader(file))
+				if err != nil {
+					rerr = err
+					return
+				}
+				payload, accepted = e.Verify(time.Unix(now, 0), id.Fetcher(), log.New(&lb, "", 0))
+			})
+			key := fmt.Sprintf("pol:%s:scheme:%s", ver, ident)
+			det := map[string]any{"version": string(ver), "integrity": ident, "matches_version": matches, "read_error": fmt.Sprint(rerr), "logger": strings.TrimSpace(lb.String())}
+			outcome := "reject-agree"
+			switch {
+			case p:
+				outcome = "PANIC"
+				r.Violation(key+":panic", fmt.Sprintf("panic: %v", pv), det)
+			case accepted && !matches:
+				outcome = "OVER-ACCEPTED"
+				r.Violation(key+":accept", fmt.Sprintf("Verify accepted a %s exchange whose payload integrity scheme is %s (payload, digest header and integrity parameter consistently of the other draft)", ver, ident), det)
+			case !accepted && matches:
+				outcome = "OVER-REJECTED"
+				r.Violation(key+":reject", fmt.Sprintf("Verify rejected a reference-made %s exchange with the version's own integrity scheme %s: %v %s", ver, ident, rerr, strings.TrimSpace(lb.String())), det)
+			case accepted:
+				outcome = "accept-agree"
+				if !bytes.Equal(payload, plain) {
+					outcome = "PAYLOAD"
+					r.Violation(key+":payload", "accepted with a different payload", det)
+				}
+			}
+			r.Eval("integrity-scheme:" + outcome)
+			r.Distinct(fmt.Sprintf("scheme|%s|%s|%s", ver, ident, outcome))
+		}
+	}
+}
+
 // extremeTimes: date / expires values at the edges of the 64-bit range. The library's signer cannot express them, so an
 // honest exchange is built by the library and its signature is replaced by one made by the reference over the same
 // content with the extreme timestamps. The lifetime check must hold in exact arithmetic (expires - date <= 604800 as
@@ -349,6 +416,7 @@ func run(r *mon.Run) {
 	id := gen.NewIdentity(g0, gen.Curves[0], "example.com", 1)
 	if r.Shard == 0 {
 		extremeTimes(r, id)
+		integritySchemes(r, id)
 	}
 	idx := 0
 	mine := func() bool { idx++; return r.Mine(idx) }
